@@ -33,20 +33,27 @@ Proof.
   intros Hz H k Hk. apply (all_below_sound _ _ H). rewrite Z2Nat.id by exact Hz. exact Hk.
 Qed.
 
-(* ---- the two finite checks (one era) --------------------------------------------------------- *)
-Lemma era_check_days_true : era_check_days = true.
+(* ---- the two finite checks (one era) ---------------------------------------------------------
+   (stated on the unfolded forms so that later uses match syntactically and the kernel never
+   has to unroll the counter during conversion) *)
+Lemma era_check_days_true : all_below (Z.to_nat DAYS_PER_ERA) day_ok = true.
 Proof. vm_compute. reflexivity. Qed.
-Lemma era_check_dates_true : era_check_dates = true.
+Lemma era_check_dates_true :
+  all_below 400 (fun yoe => all_below 12 (fun m0 => all_below 31 (fun d0 =>
+    date_ok yoe (m0 + 1) (d0 + 1)))) = true.
 Proof. vm_compute. reflexivity. Qed.
+
+Lemma DAYS_PER_ERA_nonneg : 0 <= DAYS_PER_ERA.
+Proof. unfold DAYS_PER_ERA. lia. Qed.
 
 Lemma civil_of_doe_spec doe : 0 <= doe < DAYS_PER_ERA ->
   forall yoe m d, civil_of_doe doe = (yoe, m, d) ->
   0 <= yoe < 400 /\ valid_in_era yoe m d = true /\ doe_of yoe m d = doe.
 Proof.
   intros Hd yoe m d E.
-  pose proof (all_below_Z_sound DAYS_PER_ERA _ ltac:(unfold DAYS_PER_ERA; lia)
+  pose proof (all_below_Z_sound DAYS_PER_ERA day_ok DAYS_PER_ERA_nonneg
                 era_check_days_true doe Hd) as H.
-  cbv beta in H. rewrite E in H.
+  unfold day_ok in H. rewrite E in H.
   repeat (apply andb_true_iff in H; destruct H as [H ?]).
   repeat split; try lia. assumption.
 Qed.
@@ -63,9 +70,9 @@ Proof.
     lia. }
   pose proof (all_below_sound 400 _ era_check_dates_true yoe ltac:(lia)) as H1. cbv beta in H1.
   pose proof (all_below_sound 12 _ H1 (m - 1) ltac:(lia)) as H2. cbv beta in H2.
-  pose proof (all_below_sound 31 _ H2 (d - 1) ltac:(lia)) as H3. cbv beta zeta in H3.
+  pose proof (all_below_sound 31 _ H2 (d - 1) ltac:(lia)) as H3. cbv beta in H3.
   replace (m - 1 + 1) with m in H3 by lia. replace (d - 1 + 1) with d in H3 by lia.
-  rewrite Hv in H3.
+  unfold date_ok in H3. rewrite Hv in H3. cbv zeta in H3.
   destruct (civil_of_doe (doe_of yoe m d)) as [[y' m'] d'].
   repeat (apply andb_true_iff in H3; destruct H3 as [H3 ?]).
   split; [lia|]. f_equal; [f_equal|]; lia.
